@@ -194,7 +194,11 @@ def make_file(rng):
                 r = restraint(pool, '')
                 r['toks'] = [r['toks'][0]] + [(t + f'_{n}', role) if role == 'an' else (t, role) for t, role in r['toks'][1:]]
                 f.append(r)
-    f.append(ins('FVAR', *[num(rng, 0.1, 0.9, 5) for _ in range(nfv)]))
+    fv = [num(rng, 0.1, 0.9, 5) for _ in range(nfv)]
+    k = rng.randint(1, nfv - 1) if nfv >= 2 and rng.random() < 0.4 else nfv      # the free variables may come in several FVAR instructions
+    f.append(ins('FVAR', *fv[:k]))
+    if fv[k:]:
+        f.append(ins('FVAR', *fv[k:]))
 
     def atom(name, s, sof='11.00000'):
         aniso = rng.random() < 0.5
@@ -301,7 +305,10 @@ def render(layout, extras=None):
                 break
             w = wraps.get(j) or wraps.get(str(j))
             if w:
-                phys[-1] += ('' if w[0] else ' ' * int(sep.get(j, sep.get(str(j), 1)))) + '='
+                # w = (tight, indent of the continuation line[, blanks behind '='[, continuation lines that carry only '=']])
+                phys[-1] += ('' if w[0] else ' ' * int(sep.get(j, sep.get(str(j), 1)))) + '=' + ' ' * (int(w[2]) if len(w) > 2 else 0)
+                for _ in range(int(w[3]) if len(w) > 3 else 0):
+                    phys.append(' ' * max(1, int(w[1])) + '=')
                 phys.append(' ' * max(1, int(w[1])))
             else:
                 phys[-1] += ' ' * int(sep.get(j, sep.get(str(j), 1)))
@@ -325,7 +332,7 @@ def swapcase_some(rng, s, mode):
 
 
 COMMENTS = [' ! note', '  !comment text', ' ! C-H 0.95', '!x']
-COMMENTS_EQ = [' ! U = big', ' ! a=b', ' !=', ' ! trailing =']
+COMMENTS_EQ = [' ! U = big', ' ! a=b', ' !=', ' ! trailing =', ' ! d=1.33, s=0.02 ! (CSD)', '  != !']
 
 
 MODES = ['lower', 'title', 'mixed']
@@ -366,7 +373,12 @@ def transform(rng, f, kind, where=None):
     elif kind == 'wrapk':
         for i in rng.sample(wrappable, rng.randint(1, min(6, len(wrappable)))):
             b = bounds(i)
-            ly[i]['wraps'] = {j: (False, rng.randint(1, 8)) for j in rng.sample(b, rng.randint(1, min(4, len(b))))}
+            ly[i]['wraps'] = {j: (False, rng.randint(1, 8), rng.choice([0, 0, 1, 3])) for j in rng.sample(b, rng.randint(1, min(4, len(b))))}
+    elif kind == 'wrap-empty':
+        # continuation lines that carry nothing but the marker
+        for i in rng.sample(wrappable, rng.randint(1, min(3, len(wrappable)))):
+            b = bounds(i)
+            ly[i]['wraps'] = {j: (False, rng.randint(1, 8), rng.choice([0, 0, 2]), rng.choice([1, 1, 2])) for j in rng.sample(b, rng.randint(1, min(2, len(b))))}
         detail = dict(n=sum(len(x.get('wraps', {})) for x in ly))
     elif kind == 'blanks':
         for i in rng.sample(wrappable, rng.randint(1, len(wrappable))):
@@ -664,6 +676,18 @@ def observe(lines, elements=None):
             o['atom_an'].append(a.an)
         except Exception as ex:
             o['atom_an'].append(type(ex).__name__)
+    # case-insensitive atom lookup: every atom is found under its full name in capitals and in lower case, and is itself
+    pos = {id(a): k for k, a in enumerate(shx.atoms)}
+    look = []
+    for a in shx.atoms:
+        row = []
+        for q in (a.fullname.upper(), a.fullname.lower()):
+            try:
+                row += [pos.get(id(shx.atoms.get_atom_by_name(q)), -1), bool(shx.atoms.has_atom(q))]
+            except Exception as ex:
+                row.append(type(ex).__name__)
+        look.append(row)
+    o['atom_lookup'] = look
     o['unit'] = [fl(x) for x in shx.unit.values] if getattr(shx, 'unit', None) else None
     o['fvars'] = [fl(x) for x in shx.fvars.as_stringlist] if hasattr(shx.fvars, 'as_stringlist') else [fl(v.fvar_value) for v in shx.fvars.fvars]
     o['symm'] = len(shx.symmcards._symmcards) if hasattr(shx.symmcards, '_symmcards') else None
@@ -696,7 +720,7 @@ def same(a, b):
 
 
 FIELDS = ['atoms', 'restraints', 'restraint_errors_empty', 'n_rem', 'titl_raw', 'scalars', 'cell', 'sfac', 'elem_lookup', 'sfac_iter', 'sfac_byindex', 'sfac_coeff', 'sum_exact',
-          'sum_formula', 'sum_formula_exact', 'disp', 'atom_an', 'unit', 'fvars', 'symm', 'counts', 'dsr', 'residuals', 'tail']
+          'sum_formula', 'sum_formula_exact', 'disp', 'atom_an', 'atom_lookup', 'unit', 'fvars', 'symm', 'counts', 'dsr', 'residuals', 'tail']
 
 
 def upper_objs(o):
@@ -843,7 +867,7 @@ def class_lookup_impl(q):
     return sorted(shx.restraints[0].residue_number)
 
 
-KINDS = ['sfac-forms', 'wrap1', 'wrap-tight', 'wrapk', 'blanks', 'blanks-titl', 'comment', 'comment=', 'comment-on-wrap', 'comment=-on-wrap',
+KINDS = ['sfac-forms', 'wrap1', 'wrap-tight', 'wrapk', 'wrap-empty', 'blanks', 'blanks-titl', 'comment', 'comment=', 'comment-on-wrap', 'comment=-on-wrap',
          'comment-multi', 'comment=-multi', 'blankline', 'commentline', 'commentline=', 'case-kw', 'case-kw-some', 'case-tail', 'case-dsr',
          'case-rem=', 'case-elem', 'case-atom', 'case-ratom', 'case-resi', 'case-suffix', 'wrap+case', 'dsr-forms', 'mixed']
 
